@@ -22,7 +22,7 @@ func run(r *vk.Run) {
 		"A case is distinct by the canonical bytes of its inputs (pairs), its numeric parameters (value level), its operand vector (logic) or its configuration plus delivered/suppressed sequence (streams, counted only when both outcomes occur).",
 		"protobuf equality is proto.Equal of the module's protobuf-go version (v1.34.2); an independent reference equality is cross-checked against it on every pair and is the oracle where change_time or a tolerance applies",
 		"float tolerance means |x-y| <= max(margin, fraction*min(|x|,|y|)) (doc comment and the package's own tests); NaN~NaN and Inf~Inf follow from reflexivity; +Inf against -Inf, float64-rounding boundary cases, one-sided presence of a tolerance-kind message or of change_time, and zero-versus-unset implicit floats within tolerance are counted as open, not judged",
-		"timestamps lie in 1970..2096 with nanos in [0,1e9), durations within +-4e9 s with consistent signs, tolerances are non-negative (inside the exactly representable range of time.Time / time.Duration)",
+		"timestamps lie in 1970..2096 with nanos in [0,1e9) where the exact tolerance boundary is judged; pairs anywhere in years 1..9999 that lie more than 292 years apart (beyond what a time.Duration can hold) are judged only as 'not within any tolerance, symmetric, reflexive'; durations within +-4e9 s with consistent signs, tolerances are non-negative (inside the exactly representable range of time.Time / time.Duration)",
 		"DurationValueWithinP: reflexivity and symmetry are judged; the tolerance only where every reading of 'within p percent of each other' agrees",
 		"stream subscribers use WithBackpressure(true); an updates-only subscriber is taken to hold the value present at subscription for judging suppressions only")
 
